@@ -8,8 +8,9 @@ def holds : Pc → Bool
   | .write | .bRel _ => true
   | _ => false
 
+/-- inside `with tensor lock` — the callback (and its locks) included -/
 def inT : Pc → Bool
-  | .bAcq | .waiting | .woken | .write | .bRel _ => true
+  | .cbAcqIn | .cbAcq | .cbBody | .bAcq | .waiting | .woken | .write | .bRel _ => true
   | _ => false
 
 /-- holding the inner writer's callback lock -/
@@ -34,21 +35,19 @@ structure Quiet (cfg : Cfg) (f : Nat → Pc → Nat) : Prop where
   wk : ∀ i p, f i (wake p) = f i p
 
 theorem quiet_fReg (cfg : Cfg) : Quiet cfg (fReg cfg) :=
-  ⟨by simp [fReg, holds], by intro i; unfold firstPc; split <;> simp [fReg, holds], by simp [fReg, holds],
+  ⟨by simp [fReg, holds], by intro i; simp [firstPc, fReg, holds], by simp [fReg, holds],
    by intro i p; cases p <;> simp [fReg, holds, wake]⟩
 theorem quiet_fOver (cfg : Cfg) : Quiet cfg (fOver cfg) :=
-  ⟨by simp [fOver, holds], by intro i; unfold firstPc; split <;> simp [fOver, holds], by simp [fOver, holds],
+  ⟨by simp [fOver, holds], by intro i; simp [firstPc, fOver, holds], by simp [fOver, holds],
    by intro i p; cases p <;> simp [fOver, holds, wake]⟩
 theorem quiet_fCb (cfg : Cfg) : Quiet cfg fCb :=
-  ⟨by simp [fCb], by intro i; unfold firstPc; split <;> simp [fCb], by simp [fCb],
+  ⟨by simp [fCb], by intro i; simp [firstPc, fCb], by simp [fCb],
    by intro i p; cases p <;> simp [fCb, wake]⟩
 theorem quiet_fT (cfg : Cfg) (o : Nat) : Quiet cfg (fT cfg o) :=
-  ⟨by simp [fT, inT], by intro i; unfold firstPc; split <;> simp [fT, inT], by simp [fT, inT],
+  ⟨by simp [fT, inT], by intro i; simp [firstPc, fT, inT], by simp [fT, inT],
    by intro i p; cases p <;> simp [fT, inT, wake]⟩
 theorem quiet_fIn (cfg : Cfg) (q : Nat) : Quiet cfg (fIn cfg q) :=
-  ⟨by simp [fIn, inIn], by
-    intro i; unfold firstPc
-    cases h : (cfg.pool (cfg.poolOf i)).innerCb <;> simp [fIn, inIn, h],
+  ⟨by simp [fIn, inIn], by intro i; simp [firstPc, fIn, inIn],
    by simp [fIn, inIn], by intro i p; cases p <;> simp [fIn, inIn, wake]⟩
 
 theorem poolOf_next {cfg : Cfg} {i : Nat} (hn : cfg.hasNext i = true) :
@@ -127,11 +126,13 @@ theorem LInv_init (cfg : Cfg) : LInv cfg (init cfg) := by
 @[simp] theorem finishTask_files (cfg : Cfg) (s : State) (i : Nat) (ok : Bool) :
     (finishTask cfg s i ok).files = s.files := by unfold finishTask; split <;> rfl
 
-theorem firstPc_inner {cfg : Cfg} {q : Nat} (h : firstPc cfg q = .cbAcqIn) :
+theorem afterT_inner {cfg : Cfg} {q : Nat} (h : afterT cfg q = .cbAcqIn) :
     (cfg.pool q).innerCb = true := by
-  unfold firstPc at h; split at h
+  unfold afterT at h; split at h
   · assumption
   · simp at h
+
+theorem firstPc_ne_cbAcqIn (cfg : Cfg) (q : Nat) : firstPc cfg q ≠ .cbAcqIn := by simp [firstPc]
 
 theorem getD_set_bool (l : List Bool) (i o : Nat) (b : Bool) (hi : i < l.length) :
     (l.set i b).getD o false = if o = i then b else l.getD o false := by
@@ -169,32 +170,16 @@ theorem set_cbAcqIn {l : List Pc} {i k : Nat} {x : Pc} (hx : x ≠ .cbAcqIn)
   (repeat' split at h) <;> simp_all
 
 theorem finishTask_cbAcqIn {cfg : Cfg} {s : State} {i k : Nat} {ok : Bool}
-    (h : (finishTask cfg s i ok).tasks[k]? = some .cbAcqIn) :
-    s.tasks[k]? = some .cbAcqIn ∨ (k = i + 1 ∧ cfg.hasNext i = true ∧
-      firstPc cfg (cfg.poolOf i) = .cbAcqIn) := by
+    (h : (finishTask cfg s i ok).tasks[k]? = some .cbAcqIn) : s.tasks[k]? = some .cbAcqIn := by
   rcases finishTask_cases cfg s i ok with ⟨_, hn, e⟩ | ⟨_, e⟩ <;> rw [e] at h
-  · simp only [List.getElem?_set] at h
-    by_cases e1 : i + 1 = k
-    · subst e1
-      simp only [if_true] at h
-      split at h
-      · simp at h; exact Or.inr ⟨rfl, hn, h⟩
-      · simp at h
-    · simp only [e1, if_false] at h
-      split at h
-      · split at h <;> simp at h
-      · exact Or.inl h
-  · exact Or.inl (set_cbAcqIn (by simp) h)
+  · exact set_cbAcqIn (by simp) (set_cbAcqIn (firstPc_ne_cbAcqIn _ _) h)
+  · exact set_cbAcqIn (by simp) h
 
 theorem LInv.inner_finish {cfg : Cfg} {s s0 : State} (hl : LInv cfg s)
     (h0 : ∀ k : Nat, s0.tasks[k]? = some .cbAcqIn → s.tasks[k]? = some .cbAcqIn) (i : Nat) (ok : Bool) :
     ∀ k : Nat, (finishTask cfg s0 i ok).tasks[k]? = some .cbAcqIn →
-      (cfg.pool (cfg.poolOf k)).innerCb = true := by
-  intro k hk
-  rcases finishTask_cbAcqIn hk with h1 | ⟨rfl, hn, hf⟩
-  · exact hl.inner k (h0 k h1)
-  · rw [poolOf_next hn]; exact firstPc_inner hf
-
+      (cfg.pool (cfg.poolOf k)).innerCb = true :=
+  fun k hk => hl.inner k (h0 k (finishTask_cbAcqIn hk))
 
 theorem WF.poolOf_lt {cfg : Cfg} (wf : WF cfg) {i : Nat} (hi : i < cfg.n) : cfg.poolOf i < cfg.nPools := by
   have hj := wf.job_lt i hi
@@ -227,14 +212,7 @@ theorem LInv_step {cfg : Cfg} (wf : WF cfg) {s s' : State} {l : Label} (hs : SIn
           show wsum f 0 (s.tasks.set _ _) + _ = _
           omega) rfl hl.le rfl rfl (fun _ _ => rfl) (fun _ _ => rfl) ?_
       intro k hk
-      by_cases e : (cfg.jobc j).start = k
-      · subst e
-        have hlt := getElem?_lt (hs.start_notStarted wf hj hsub)
-        simp only [List.getElem?_set, if_true] at hk
-        rw [hpo]
-        apply firstPc_inner
-        simpa [hlt] using hk
-      · simp only [List.getElem?_set, e, if_false] at hk; exact hl.inner k hk
+      exact hl.inner k (set_cbAcqIn (firstPc_ne_cbAcqIn _ _) hk)
   | takeSub q j rest P q' hP hq hidle hsub =>
       exact ⟨hl.reg, hl.over, hl.le, hl.cb, hl.tl, hl.cin, hl.inner⟩
   | exit q P hP hq hsd hidle => exact ⟨hl.reg, hl.over, hl.le, hl.cb, hl.tl, hl.cin, hl.inner⟩
@@ -261,21 +239,33 @@ theorem LInv_step {cfg : Cfg} (wf : WF cfg) {s s' : State} {l : Label} (hs : SIn
       have hge := wsum_ge0 fCb s.tasks i _ hi
       have hil : i < cfg.n := by rw [← hs.tasks_len]; exact getElem?_lt hi
       have hpl : cfg.poolOf i < s.cbIn.length := by rw [hs.cbin_len]; exact wf.poolOf_lt hil
+      have hol : cfg.obj i < s.tLocks.length := by rw [hs.locks_len]; exact wf.obj_lt i hil
       have hgeI := wsum_ge0 (fIn cfg (cfg.poolOf i)) s.tasks i _ hi
       have hcinI := hl.cin (cfg.poolOf i) (wf.poolOf_lt hil)
+      have hgeT := wsum_ge0 (fT cfg (cfg.obj i)) s.tasks i _ hi
+      have htl := hl.tl (cfg.obj i) (wf.obj_lt i hil)
       refine LInv_gen (i := i) (p := .cbBody) (x := .done false) hl
         (fun f qf => by
           have := wsum_finish qf (s := { s with log := s.log ++ [i], cbLock := false
                                                 cbIn := if (cfg.pool (cfg.poolOf i)).innerCb
-                                                  then s.cbIn.set (cfg.poolOf i) false else s.cbIn })
-            (SInv_congr hs rfl rfl rfl rfl (by simp only; split <;> simp) (fun _ => rfl) (fun _ => rfl))
+                                                  then s.cbIn.set (cfg.poolOf i) false else s.cbIn
+                                                tLocks := s.tLocks.set (cfg.obj i) false })
+            (SInv_congr hs rfl rfl (by simp) rfl (by simp only; split <;> simp) (fun _ => rfl) (fun _ => rfl))
             false hi (by simp)
           simp only [qf.dn]; exact this)
         (by simp [fReg, holds]) (by simpa using hl.le) (by simp [fOver, holds]) ?_
-        (fun o _ => by simp [fT, inT]) (fun q _ => ?_)
+        (fun o _ => ?_) (fun q _ => ?_)
         (hl.inner_finish (fun k hk => hk) i false)
       · cases hc : s.cbLock <;> simp [fCb, hc] at hcb hge ⊢
         omega
+      · simp only [finishTask_tLocks, getD_set_bool _ _ _ _ hol, fT, inT]
+        by_cases ho : o = cfg.obj i
+        · subst ho
+          simp [fT, inT] at hgeT
+          simp only [List.getD_eq_getElem?_getD] at htl
+          cases hlk : s.tLocks[cfg.obj i]?.getD false <;> simp [hlk] at htl ⊢ <;> omega
+        · have : ¬ cfg.obj i = o := fun e => ho e.symm
+          simp [ho, this]
       · simp only [finishTask_cbIn]
         cases hinn : (cfg.pool (cfg.poolOf i)).innerCb
         · simp [fIn, inIn, hinn]
@@ -295,7 +285,7 @@ theorem LInv_step {cfg : Cfg} (wf : WF cfg) {s s' : State} {l : Label} (hs : SIn
       have hpl : cfg.poolOf i < s.cbIn.length := by rw [hs.cbin_len]; exact wf.poolOf_lt hil
       have hgeI := wsum_ge0 (fIn cfg (cfg.poolOf i)) s.tasks i _ hi
       have hcinI := hl.cin (cfg.poolOf i) (wf.poolOf_lt hil)
-      refine LInv_gen (i := i) (p := .cbBody) (x := .tAcq) hl
+      refine LInv_gen (i := i) (p := .cbBody) (x := .bAcq) hl
         (fun f _ => wsum_set0 f s.tasks i _ _ hi) (by simp [fReg, holds]) hl.le
         (by simp [fOver, holds]) ?_ (fun o _ => by simp [fT, inT]) (fun q _ => ?_) (keepIn (by simp))
       · cases hc : s.cbLock <;> simp [fCb, hc] at hcb hge ⊢
@@ -314,15 +304,32 @@ theorem LInv_step {cfg : Cfg} (wf : WF cfg) {s s' : State} {l : Label} (hs : SIn
   | tAcq i hi hlk =>
       have hil : i < cfg.n := by rw [← hs.tasks_len]; exact getElem?_lt hi
       have hol : cfg.obj i < s.tLocks.length := by rw [hs.locks_len]; exact wf.obj_lt i hil
-      refine LInv_gen (i := i) (p := .tAcq) (x := .bAcq) hl
-        (fun f _ => wsum_set0 f s.tasks i _ _ hi) (by simp [fReg, holds]) hl.le
-        (by simp [fOver, holds]) (by simp [fCb]) (fun o _ => ?_) (fun q _ => by simp [fIn, inIn])
-        (keepIn (by simp))
-      simp only [getD_set_bool _ _ _ _ hol, fT, inT]
-      by_cases ho : o = cfg.obj i
-      · subst ho; simp only [List.getD_eq_getElem?_getD] at hlk; simp [hlk]
-      · have : ¬ cfg.obj i = o := fun e => ho e.symm
-        simp [ho, this]
+      have hx : afterT cfg (cfg.poolOf i) = .cbAcqIn ∨ afterT cfg (cfg.poolOf i) = .cbAcq := by
+        unfold afterT; split <;> simp
+      refine LInv_gen (i := i) (p := .tAcq) (x := afterT cfg (cfg.poolOf i)) hl
+        (fun f _ => wsum_set0 f s.tasks i _ _ hi)
+        (by rcases hx with e | e <;> simp [e, fReg, holds]) hl.le
+        (by rcases hx with e | e <;> simp [e, fOver, holds])
+        (by rcases hx with e | e <;> simp [e, fCb]) (fun o _ => ?_)
+        (fun q _ => by
+          unfold afterT
+          cases hinn : (cfg.pool (cfg.poolOf i)).innerCb <;> simp [fIn, inIn, hinn]) ?_
+      · have hT : fT cfg o i (afterT cfg (cfg.poolOf i)) = fT cfg o i .bAcq := by
+          rcases hx with e | e <;> simp [e, fT, inT]
+        rw [hT]
+        simp only [getD_set_bool _ _ _ _ hol, fT, inT]
+        by_cases ho : o = cfg.obj i
+        · subst ho; simp only [List.getD_eq_getElem?_getD] at hlk; simp [hlk]
+        · have : ¬ cfg.obj i = o := fun e => ho e.symm
+          simp [ho, this]
+      · intro k hk
+        by_cases e : i = k
+        · subst e
+          have hlt := getElem?_lt hi
+          simp only [List.getElem?_set, if_true] at hk
+          apply afterT_inner
+          simpa [hlt] using hk
+        · simp only [List.getElem?_set, e, if_false] at hk; exact hl.inner k hk
   | bTry i p hi hp =>
       rcases budgetTry_cases cfg s i with ⟨h1, h2, e⟩ | ⟨h1, h2, e⟩ | ⟨h1, h2, e⟩ | ⟨h1, h2, e⟩ <;> rw [e]
       · rcases hp with rfl | rfl <;>
